@@ -184,6 +184,8 @@ def big_documents(thorough=False):
         out.append(("bad-unexpected-indent-%d" % n, "Feature: f\n Scenario: s\n  Given x\n" + " " * n + "Examples:\n" + " " * n + "| a |\n" + "\t" * n + "nonsense\n"))
         out.append(("bad-many-errors-%d" % n, "Feature: f\n" + "".join(" Scenario: s%d\n  Given x\n  bad line %d\n" % (i, i) for i in range(n))))
         out.append(("bad-eof-in-docstring-%d" % n, "Feature: f\n Scenario: s\n  Given d\n   \"\"\"\n" + "x\n" * n))
+    for n in [600, 1200] + ([5000] if thorough else []):
+        out.append(("tagged-scenarios-%d" % n, "Feature: f\n" + "".join(" @a%d\n # c\n Scenario Outline: s%d\n  Given <x>\n @e\n\n Examples:\n  | x |\n  | 1 |\n" % (i, i) for i in range(n))))
     for n in [1200, 3500] + ([20000] if thorough else []):
         # long unbroken runs (recursion depth / stack use must not depend on the length of a run)
         out.append(("and-run-%d" % n, "Feature: f\n Background:\n  Given b\n" + "  And bb\n" * (n // 2) + " Scenario Outline: s\n  But first\n" + "  And <a>\n" * n + "  Examples:\n   | a |\n   | 1 |\n"))
